@@ -362,6 +362,10 @@ Traversal(fl) == LET ef == ExpectFile(fl) IN
                  <<[cb |-> "file", id |-> ""], [cb |-> "module", id |-> ef.module]>>
                  \o Concat([i \in 1..Len(ef.defs) |-> DefEvents(fl.mod, ef.defs[i])], 1)
 
+\* nothing from another file is presented: every declared element shown while file f is walked lies in file f (the
+\* types nested in an alias are reached through their users, wherever the alias was written: 0 = not constrained)
+InFile(evs, f) == [i \in 1..Len(evs) |-> evs[i] @@ [f |-> IF evs[i].cb = "type_ref" THEN 0 ELSE f]]
+
 \* ---- output
 AllToks == LET RECURSIVE Go(_)
                Go(f) == IF f > Len(prog) THEN <<>> ELSE <<FileToks(prog[f], f, ch)>> \o Go(f + 1)
@@ -371,5 +375,5 @@ Rendered(f) == LET placed == Place(AllToks[f], 1, [row |-> 1, col |-> 1], ch.see
                 spans |-> {SpanFacts(placed, el) : el \in Els(placed)}]
 Emit == done => PrintT(<<"CASE", ToJson([files |-> [f \in 1..Len(prog) |-> Rendered(f)],
                                          expect |-> [f \in 1..Len(prog) |-> ExpectFile(prog[f])],
-                                         visit |-> [f \in 1..Len(prog) |-> Traversal(prog[f])]])>>)
+                                         visit |-> [f \in 1..Len(prog) |-> InFile(Traversal(prog[f]), f)]])>>)
 ====================================================================================================
